@@ -71,6 +71,10 @@ struct SimAlloc {
 	// canary mode (per-run knob): every block gets CANARY_BYTES guard bytes behind it, checked when the block
 	// comes back and at the end of the run. ASan cannot see a write made by an uninstrumented library
 	// (libcrypto, gnutls, jansson) into a block libjwt sized; the guard bytes can.
+	// injected failures never land inside jansson's parser or serializer (their request index is handed on to the next
+	// request outside): jansson 2.14 aborts on an assertion or corrupts its buffer when its lexer cannot grow a token
+	// buffer, which C17 records as a known finding and every other profile has to stay clear of
+	bool spare_jansson = false;
 	bool canary = false;
 	uint64_t canary_hits = 0;
 	size_t canary_block = 0, canary_off = 0; // first hit: block size, offset of the first damaged byte past the end
@@ -83,6 +87,7 @@ struct SimAlloc {
 	const char *parse_entry = "";
 	ParseRecord last_parse_fault;
 	uint64_t fired_in_parse = 0;
+	uint64_t fired_in_dump = 0; // faults fired while json_dumps was running
 	// dump tracking (json_dumps)
 	int in_dump = 0;
 	uint64_t dump_reqs = 0;
